@@ -5,6 +5,7 @@ from vf.engine import assume, cover
 from vf.query import Q
 from harness.routespec import L, W, render, match_spec, positions, prefer, names, warm
 
+from vf import stubs_c19          # float(text) / str(float) model for symbolic decimal literals (see C19)
 from ombott.router import RadiRouter
 from ombott.router.radidict import RadiDictKeyError
 from ombott.router.errors import RouteError
@@ -36,13 +37,14 @@ FUNCTIONS = [
     "ombott.router.radidict:RadiDict._split",
     "ombott.ombott:Ombott._handle",
 ]
-STUBS = []
+STUBS = ["vf.stubs_c19.float_model: float(text) of a symbolic ASCII decimal literal kept as canonical text (float-filtered rule set only)"]
 ASSUMPTIONS = ["tree construction (parser, _set/_split/_mount) runs concretely per rule set; only the lookup is symbolic"]
 OUTSIDE = ["paths longer than N", "rule sets not in the enumerated/generated list", "rex filters with selectors",
-           "float filters beyond digit strings of length 4", "rules with a trailing slash", "non-ASCII digits for int filters"]
+           "float filters beyond what fits a path of N characters (v/ + 3-4 characters)", "rules with a trailing slash", "non-ASCII digits for int filters"]
 BUDGET_S = {"quick": 280, "thorough": 1150}
 
 GET, POST = "GET", "POST"
+stubs_c19.install()
 
 
 def RS(*rules):
@@ -67,6 +69,7 @@ HAND = [
     ("adjacent", RS(r(W("a", "int"), W("b", "re", "[x-z]")), r(W("a", "int"), L("x")), r(L("1y"))), True),
     ("cr-lit", RS(r(L("c/"), W("y"), L("/b")), r(L("c/d/b"))), False),
     ("deep", RS(r(W("a"), L("/"), W("b")), r(W("a"), L("/"), W("b"), L("/"), W("c")), r(L("x/"), W("b")), r(L("x/y/z"))), False),
+    ("float", RS(r(L("v/"), W("f", "float")), r(L("v/"), W("f", "float"), L("/x")), r(L("v/1")), r(L("v/1.")),), True),
 ]
 
 
